@@ -5,5 +5,8 @@ U = "eliot/_util.py::"
 for name in ("safeunicode", "saferepr"):
     contract(U + name, props=["C07", "C03", "C08"], types={"o": "Any"}, returns="str",
              modifies=["#CALLS", "#NTOP"],
-             ensures=[("total-returns-text", "True"), ("calls-grow", "prefix_of(old(CALLS), CALLS)")],
+             ensures=[("total-returns-text", "True"), ("calls-grow", "prefix_of(old(CALLS), CALLS)"),
+                      ("the-value's-own-text-or-the-documented-fallback",
+                       "len(CALLS) == len(old(CALLS)) or (last(CALLS).tag == 'ret' and box(result) == last(CALLS).d) or "
+                       "(last(CALLS).tag == 'exc' and result == 'eliot: unknown, str() raised exception')")],
              notes="total: returns a str for every object, whatever its __str__/__repr__ does (raises=None: no exception escapes)")
